@@ -297,7 +297,8 @@ def run_monomial(ctx):
         want = ref_glexindex([start] * dims, [stop] * dims, dims, [ct, ct], graded, reverse)
         case = {"kind": "monomial", "start": start, "stop": stop, "dims": dims, "ct": ct, "graded": graded, "reverse": reverse}
         try:
-            m = numpoly.monomial(start, stop, dimensions=dims, cross_truncation=ct, graded=graded, reverse=reverse)
+            dims_arg = numpy.int64(dims) if isinstance(dims, int) and rng.random() < .3 else dims       # D50
+            m = numpoly.monomial(start, stop, dimensions=dims_arg, cross_truncation=ct, graded=graded, reverse=reverse)
         except Exception as err:  # noqa: BLE001
             ctx.fail(case, f"monomial raised {type(err).__name__}: {err}", ["op:monomial", "raises"])
             continue
